@@ -122,7 +122,9 @@ BinExp(a, b, s) ==
                 mod |-> GExact(TI, mod, Ints(mod)),
                 min |-> GExact(T, [vv |-> MinV(a, b)], Rng(a) \cup Rng(b)),
                 max |-> GExact(T, [vv |-> MaxV(a, b)], Rng(a) \cup Rng(b)),
-                dru |-> GExact(TI, [vv |-> dru], druI)
+                \* divRoundUp: positive operands only (the domain on which the scalar definition is determined, see VecAlgebra)
+                dru |-> IF \E i \in DOMAIN a : a[i] <= 0 \/ b[i] <= 0 THEN <<>> ELSE
+                          GExact(TI, [vv |-> dru], druI)
                           \o (IF \A i \in DOMAIN a : ModS(a[i] + b[i] - 1, b[i]) = 0 THEN GExact(TF, [vv |-> dru], druI) ELSE <<>>),
                 dot |-> GRingZ(T, [vv |-> Dot(a, b)], dotI),
                 eq  |-> GAll(T, [vv |-> Eq(a, b)]),
